@@ -240,7 +240,7 @@ def main():
     if hasattr(mod, 'extra_coverage'):
         cov.update(mod.extra_coverage())
     core.write_evidence(pid, tier, a.seed, cov, getattr(mod, 'ASSUMPTIONS', []), time.time() - t0,
-                        1 if violation else 0)
+                        1 if violation else 0, debug=a.no_proof)
     core.log('[%s] %s in %.1fs (impl %.1fs)' % (pid, 'VIOLATION' if violation else 'ok', time.time() - t0, t_impl))
     sys.exit(1 if violation else 0)
 
